@@ -380,7 +380,7 @@ func runMqCase(c mqCase) (obs mqObs) {
 			gated = gated || builtGate.hold
 			mu.Unlock()
 			if !gated {
-				callsIdle(500 * time.Millisecond)
+				callsIdle(4 * time.Second) // returns as soon as the call is through; the bound only matters on a very slow machine
 			} else if e.Blk+e.Ext > 0 {
 				// the call must have reached the gate (its reservation parked in the allocator, or its build) before the script
 				// goes on, however slowly its goroutine gets scheduled
